@@ -57,7 +57,7 @@ impl Serializable for Right {
     }
 
     fn read(de: &mut Deserializer) -> Result<Self, Self::Error> {
-        let bytes = de.read_vec()?;
+        let bytes = crate::abe_policy::read_vec(de)?;
         Ok(Self(bytes))
     }
 }
